@@ -143,11 +143,35 @@ def bool_switches(fn):
     return out
 
 
-def guarded(fn, site_bb, good_edges, entry=0):
-    """A5 via A3: every path entry -> site passes through one of good_edges."""
+def guarded(fn, site_bb, good_edges, entry=0, removed=()):
+    """A5 via A3: every path entry -> site passes through one of good_edges (`removed`: edges known infeasible in the context judged)."""
     if not good_edges:
         return False
-    return site_bb not in cfg.reachable(fn, [entry], removed_edges=good_edges)
+    return site_bb not in cfg.reachable(fn, [entry], removed_edges=list(good_edges) + list(removed))
+
+
+def option_valuation_edges(fn, val):
+    """A6: CFG edges of fn contradicted by a Some/None valuation {param_idx: True(Some)|False(None)} of its Option parameters
+    (discriminant switches on the parameter and is_some()/is_none() tests)"""
+    removed = []
+    for (b, subj) in discr_switches(fn):
+        s = peel(subj)
+        if s.kind == "param" and s.d["idx"] in val:
+            want = 1 if val[s.d["idx"]] else 0
+            t = fn.term(b)
+            listed = set(v for (v, _) in t["targets"])
+            for (v, tgt) in t["targets"]:
+                if v != want:
+                    removed.append((b, tgt))
+            if want in listed:
+                removed.append((b, t["otherwise"]))
+    for (b, tt, ft, c) in bool_switches(fn):
+        if c.kind == "call" and c.kids and c.d["term"].get("name") in ("is_some", "is_none"):
+            s = peel(c.kids[0])
+            if s.kind == "param" and s.d["idx"] in val:
+                truth = val[s.d["idx"]] if c.d["term"]["name"] == "is_some" else (not val[s.d["idx"]])
+                removed.append((b, ft if truth else tt))
+    return removed
 
 
 def unguarded_path(fn, site_bb, good_edges, entry=0):
